@@ -137,4 +137,56 @@ inductive Reachable (A : Agg) : A.State → Prop where
 def ProcessApplicable (A : Agg) : Prop :=
   ∀ s c evs, Reachable A s → A.process s c = .ok evs → (applyEvents A s evs).isSome = true
 
+/-! ### veto-aware reachability
+
+`Reachable` over-approximates what the store can hold: `execute_opt_command` calls the pre-save
+listener on the *updated* aggregate (store.rs:458) and, when the listener returns an error, neither
+stores the command nor keeps the updated aggregate (`phDecide`, branch `A.preSave … = some e`).
+In the model the listener is the component `A.preSave` of the aggregate – a function of the updated
+state and the events, not an input of the operation – so the histories of `Op`s already carry the
+veto and no side condition on histories is needed.  `ReachableV` is the closure of the initial
+states under the commands that are accepted by `process`, applied by `apply` **and** let through by
+the listener. -/
+
+inductive ReachableV (A : Agg) : A.State → Prop where
+  | init (ic : A.InitCmd) (ev : A.InitEv) : A.processInit ic = .ok ev → ReachableV A (A.init ev)
+  | step (s s' : A.State) (c : A.Cmd) (evs : List A.Ev) :
+      ReachableV A s → A.process s c = .ok evs → applyEvents A s evs = some s' →
+      A.preSave s' evs = none → ReachableV A s'
+
+/-- "`process` only emits applicable events" in the states the store can really hold. -/
+def ProcessApplicableV (A : Agg) : Prop :=
+  ∀ s c evs, ReachableV A s → A.process s c = .ok evs → (applyEvents A s evs).isSome = true
+
+/-- Every state reachable with the veto is reachable without it … -/
+theorem ReachableV.reachable {s : A.State} (h : ReachableV A s) : Reachable A s := by
+  induction h with
+  | init ic ev hp => exact Reachable.init ic ev hp
+  | step s s' c evs _ hp ha _ ih => exact Reachable.step s s' c evs ih hp ha
+
+/-- … so the veto-aware hypothesis is the weaker one. -/
+theorem ProcessApplicable.toV (h : ProcessApplicable A) : ProcessApplicableV A :=
+  fun s c evs hr hp => h s c evs hr.reachable hp
+
+/-- Without a listener the two notions coincide. -/
+theorem reachableV_of_no_listener (hno : ∀ s evs, A.preSave s evs = none) {s : A.State}
+    (h : Reachable A s) : ReachableV A s := by
+  induction h with
+  | init ic ev hp => exact ReachableV.init ic ev hp
+  | step s s' c evs _ hp ha ih => exact ReachableV.step s s' c evs ih hp ha (hno s' evs)
+
+/-- An aggregate whose `apply` has no panic arm meets both hypotheses. -/
+theorem applyEvents_total (htot : ∀ s e, (A.apply s e).isSome = true) (s : A.State)
+    (evs : List A.Ev) : (applyEvents A s evs).isSome = true := by
+  induction evs generalizing s with
+  | nil => rfl
+  | cons e es ih =>
+    have h := htot s e
+    cases ha : A.apply s e with
+    | none => rw [ha] at h; cases h
+    | some s' => simp only [applyEvents, ha]; exact ih s'
+
+theorem processApplicable_of_total (htot : ∀ s e, (A.apply s e).isSome = true) :
+    ProcessApplicable A := fun s _ evs _ _ => applyEvents_total htot s evs
+
 end KM.ES
